@@ -56,7 +56,8 @@ KERNEL_OPS = {
     'into_float::': [('into_f64', ALL_DEC, None), ('into_f32', ALL_DEC, None)],
     'from_int::': [('from_int', tuple(INTS), None)],
     'into_int::': [('into_int', ALL_DEC, ('t',))],
-    'as_integer_ratio::': [('ratio', ALL_DEC, None)],
+    'as_integer_ratio::': [('ratio', ALL_DEC, None), ('hash_is_ratio_hash', ALL_DEC, None)],
+    'impl Hash for Decimal': [('hash_is_ratio_hash', ALL_DEC, None)],
 }
 
 
@@ -204,10 +205,10 @@ ROUNDING_OPS = ('mul', 'div', 'div_rounded', 'mul_rounded', 'round', 'checked_ro
                 'checked_div', 'quantize')
 
 
-def search(pid, r, d, key, tier, seed, profile_pair=None):
+def search(pid, r, d, key, tier, seed, profile_pair=None, budget=None):
     """returns a dict describing the failing input, or None"""
     rng = random.Random(seed or 12345)
-    deadline = time.time() + (300 if tier == 'thorough' else 25)
+    deadline = time.time() + (budget or (300 if tier == 'thorough' else 25))
     combos = ops_for(key.get('fn'))
     for op, lks, rks in combos:
         for lk in lks:
